@@ -5,6 +5,7 @@
 # /verif/seeded/<seed id>/ with the confirmation log.
 set -u
 M=$1; ID=$2; CRATE=${3:-trustfall_core}
+FEAT="--features __private"; [ "$CRATE" = trustfall_core ] || FEAT=""
 WT=/tmp/confirm_wt
 OUT=/verif/seeded/$ID
 mkdir -p $OUT
@@ -15,10 +16,10 @@ LOG=$OUT/confirm.log; : > $LOG
 DEMO=$(ls $M/demo*.rs 2>/dev/null | head -1)
 mkdir -p $CRATE/tests; cp $DEMO $CRATE/tests/seed_demo.rs
 echo "## demo on clean tree" >> $LOG
-timeout 1800 cargo test -p $CRATE --offline --features __private --test seed_demo >> $LOG 2>&1; RC_CLEAN=$?
+timeout 1800 cargo test -p $CRATE --offline $FEAT --test seed_demo >> $LOG 2>&1; RC_CLEAN=$?
 git apply $M/patch.diff || { echo "patch does not apply" >> $LOG; exit 1; }
 echo "## demo with change" >> $LOG
-timeout 1800 cargo test -p $CRATE --offline --features __private --test seed_demo >> $LOG 2>&1; RC_MUT=$?
+timeout 1800 cargo test -p $CRATE --offline $FEAT --test seed_demo >> $LOG 2>&1; RC_MUT=$?
 rm -f $CRATE/tests/seed_demo.rs
 echo "## existing test suite with change" >> $LOG
 timeout 3000 cargo test -p $CRATE --offline >> $LOG 2>&1; RC_SUITE=$?
@@ -29,7 +30,7 @@ import json
 m=json.load(open("$M/meta.json"))
 m["confirmed_by_coordinator"]={"demo_rc_clean_tree":$RC_CLEAN,"demo_rc_with_change":$RC_MUT,"existing_suite_rc_with_change":$RC_SUITE,
   "ok": ($RC_CLEAN==0 and $RC_MUT!=0 and $RC_SUITE==0),
-  "commands":["cargo test -p $CRATE --offline --features __private --test seed_demo (clean, then with patch)","cargo test -p $CRATE --offline (with patch)"]}
+  "commands":["cargo test -p $CRATE --offline $FEAT --test seed_demo (clean, then with patch)","cargo test -p $CRATE --offline (with patch)"]}
 json.dump(m,open("$OUT/meta.json","w"),indent=1)
 print("$ID", m["confirmed_by_coordinator"])
 PY
